@@ -1,6 +1,7 @@
 package gen
 
 import (
+	"fmt"
 	"strings"
 	"time"
 )
@@ -18,6 +19,8 @@ type Fault struct {
 	// GetterOnly: the fault lives in the shape of the header map a getter returns and cannot be expressed over real HTTP
 	// (which canonicalises header names)
 	GetterOnly bool
+	// EditsQuote: the pre-build part changes quote fields (the world must be built afterwards)
+	EditsQuote bool
 }
 
 // Faults is the catalogue shared by the option-gating and event-log checks.
@@ -109,6 +112,27 @@ var Faults = []Fault{
 			w.QeID.Levels[i].Status = "Revoked"
 		}
 	}, MinLevel: LvlColl},
+	{Name: "module-out-of-date-with-lenient-identity-listed-last", Pre: func(w *World) {
+		// TDX-module branch; the identity of the quote's module version says OutOfDate for this module SVN, and a
+		// more lenient identity of ANOTHER version is listed after it
+		q := w.Q
+		if q.TeeTcbSvn[1] == 0 {
+			q.TeeTcbSvn[1] = 3
+		}
+		if q.TeeTcbSvn[0] < 2 {
+			q.TeeTcbSvn[0] = 2
+		}
+		if q.TeeTcbSvn[0] == 255 {
+			q.TeeTcbSvn[0] = 254
+		}
+		w.HonestCollateral()
+		own := w.TcbInfo.Identities[0]
+		own.Levels = []ModuleLevel{{Isvsvn: uint32(q.TeeTcbSvn[0]) + 1, Status: "UpToDate"}, {Isvsvn: 0, Status: "OutOfDate"}}
+		decoy := own
+		decoy.ID = fmt.Sprintf("TDX_%02x", q.TeeTcbSvn[1]%200+7)
+		decoy.Levels = []ModuleLevel{{Isvsvn: 0, Status: "UpToDate"}}
+		w.TcbInfo.Identities = []ModuleIdentity{own, decoy}
+	}, MinLevel: LvlColl, EditsQuote: true},
 	{Name: "qeid-wrong-mrsigner", Pre: func(w *World) { w.QeID.Mrsigner[3] ^= 0x20 }, MinLevel: LvlColl},
 	{Name: "tcbinfo-wrong-fmspc", Pre: func(w *World) { w.TcbInfo.Fmspc = "0123456789ab" }, MinLevel: LvlColl},
 	{Name: "tcbinfo-endpoint-down", Post: func(w *World) { delete(w.Resp, TcbInfoURL(w.FmspcHex())) }, MinLevel: LvlColl},
